@@ -216,6 +216,26 @@ theorem constructors_untracked (L : Loaded) (hn : L.kinds.Nodup) :
     L.ent.added = [] ∧ L.ent.removed = [] ∧ EInv L L.ent :=
   ⟨rfl, rfl, rfl, rfl, rfl, rfl, ⟨inv_load L.store, kinv_load L hn⟩⟩
 
+/-! ### consumers (the table of real update paths is tied in Props/C12Consumers.lean) -/
+
+/-- Semantics of the two complete forms, for every entity that satisfies the invariant (i.e. after every history,
+`c12`): a path whose property part is complete reproduces the properties, a path whose kind part is complete
+reproduces the kinds, when what it sends is applied to the loaded state. -/
+theorem consumer_sound (L : Loaded) (x : Ent) (h : EInv L x) (r : List Nat) :
+    (propsTouched r = true → propsPartOk r = true →
+      ∀ k, lookup (applyDelta L.kv (sentProps r x.props).1 (sentProps r x.props).2) k = lookup x.props.m k) ∧
+    (kindsTouched r = true → kindsPartOk r = true →
+      ∀ k, k ∈ applyKinds L.kinds (sentKinds r x).1 (sentKinds r x).2 ↔ k ∈ x.kinds) :=
+  ⟨fun ht hok k => sentProps_reproduces h.props r ht hok k, fun ht hok k => sentKinds_reproduces h.kinds r ht hok k⟩
+
+/-- The side condition is needed: a path that sends the whole map but not the deleted properties (the shape of
+neo4j `cypherBuildNodeUpdateQueryBatch`: reads AddedKinds, DeletedKinds, Properties.Map) loses a deletion — loaded
+`{a:1}`, `Delete(a)`: the stored `a` survives the update. -/
+theorem incomplete_consumer_loses_deletion :
+    ∃ (L : KV) (s : Props), Inv L s ∧ propsPartOk [0, 1, 5] = false ∧
+      lookup (applyDelta L (sentProps [0, 1, 5] s).1 (sentProps [0, 1, 5] s).2) 0 ≠ lookup s.m 0 :=
+  ⟨[(0, 1)], (Props.load (some [(0, 1)])).delete 0, inv_delete (inv_load (some [(0, 1)])) 0, by decide, by decide⟩
+
 /-! ### the property -/
 
 /-- C12 holds at full strength of the code as it is. -/
